@@ -882,3 +882,491 @@ Proof.
   - right. rewrite static_cl_plain, static_wire_plain. reflexivity.
   - left. unfold r_cl. rewrite hdr_gz. apply gz_hdr_cl.
 Qed.
+
+(* ====== the pooled writers: linearity invariant ====== *)
+Lemma upd_same {A} (f : nat -> A) k v : upd f k v k = v.
+Proof. unfold upd. rewrite Nat.eqb_refl. reflexivity. Qed.
+Lemma upd_other {A} (f : nat -> A) k v x : x <> k -> upd f k v x = f x.
+Proof. unfold upd. intros H. destruct (Nat.eqb_spec x k); [contradiction | reflexivity]. Qed.
+
+Lemma in_remove_nth {A} (k : nat) (l : list A) x : In x (remove_nth k l) -> In x l.
+Proof.
+  unfold remove_nth. intros H. apply in_app_or in H as [H | H].
+  - rewrite <- (firstn_skipn k l). apply in_or_app. left. exact H.
+  - rewrite <- (firstn_skipn (S k) l). apply in_or_app. right. exact H.
+Qed.
+
+Lemma nodup_remove_nth {A} (k : nat) (l : list A) : NoDup l -> NoDup (remove_nth k l).
+Proof.
+  unfold remove_nth. revert k. induction l as [|a l IH]; intros k H.
+  - destruct k; simpl; constructor.
+  - destruct k; simpl.
+    + inversion H; assumption.
+    + inversion H as [|? ? Hn Hd]; subst. constructor.
+      * intros Hin. apply Hn. apply (in_remove_nth k l). exact Hin.
+      * apply IH. exact Hd.
+Qed.
+
+Lemma nth_removed_notin {A} (k : nat) (l : list A) w :
+  NoDup l -> nth_error l k = Some w -> ~ In w (remove_nth k l).
+Proof.
+  unfold remove_nth. revert k. induction l as [|a l IH]; intros k Hd Hn.
+  - destruct k; discriminate.
+  - inversion Hd as [|? ? Hna Hd']; subst. destruct k; simpl in *.
+    + injection Hn as <-. exact Hna.
+    + intros [-> | Hin].
+      * apply Hna. eapply nth_error_In. exact Hn.
+      * exact (IH k Hd' Hn Hin).
+Qed.
+
+Record pinv (s : pst) : Prop := mkInv {
+  i_nodup : NoDup (p_pool s);
+  i_pool_free : forall r w, p_held s r = Some w -> ~ In w (p_pool s);
+  i_excl : forall r1 r2 w, p_held s r1 = Some w -> p_held s r2 = Some w -> r1 = r2;
+  i_lt_pool : forall w, In w (p_pool s) -> (w < p_next s)%nat;
+  i_lt_held : forall r w, p_held s r = Some w -> (w < p_next s)%nat;
+  i_held : forall r w, p_held s r = Some w ->
+      p_dst s w = r /\ p_closed s w = false /\ p_buf s w = p_log s r /\ p_out s r = [] /\
+      p_done s r = false /\ p_got s r = true;
+  i_done : forall r, p_done s r = true ->
+      p_held s r = None /\ p_out s r = (if p_got s r then [rev (p_log s r)] else []);
+  i_idle : forall r, p_done s r = false -> p_held s r = None ->
+      p_out s r = [] /\ p_log s r = [] /\ p_got s r = false }.
+
+Lemma pinv_p0 : pinv p0.
+Proof.
+  constructor; cbn; try discriminate; try (intros; contradiction); auto.
+  constructor.
+Qed.
+
+Ltac updc :=
+  repeat match goal with
+  | H : context [upd _ ?k _ ?x] |- _ =>
+      destruct (Nat.eq_dec x k) as [?E | ?E];
+      [ try subst x; rewrite ?upd_same in * | rewrite (upd_other _ k _ x E) in * ]
+  | |- context [upd _ ?k _ ?x] =>
+      destruct (Nat.eq_dec x k) as [?E | ?E];
+      [ try subst x; rewrite ?upd_same in * | rewrite (upd_other _ k _ x E) in * ]
+  end.
+
+Lemma pinv_get_pool s r k w :
+  pinv s -> p_done s r = false -> p_held s r = None -> nth_error (p_pool s) k = Some w ->
+  pinv (mkP (remove_nth k (p_pool s)) (upd (p_held s) r (Some w)) (p_done s) (upd (p_got s) r true)
+            (upd (p_dst s) w r) (upd (p_buf s) w []) (upd (p_closed s) w false) (p_out s) (p_log s) (p_next s)).
+Proof.
+  intros I Hd Hh Hn.
+  assert (Hin : In w (p_pool s)) by (eapply nth_error_In; exact Hn).
+  assert (Hfree : forall r0, p_held s r0 <> Some w) by (intros r0 H0; exact (i_pool_free s I r0 w H0 Hin)).
+  destruct (i_idle s I r Hd Hh) as (Ho & Hl & Hg).
+  constructor; cbn [p_pool p_held p_done p_got p_dst p_buf p_closed p_out p_log p_next].
+  - apply nodup_remove_nth. exact (i_nodup s I).
+  - intros r0 w0 H0. destruct (Nat.eq_dec r0 r) as [->|E].
+    + rewrite upd_same in H0. injection H0 as <-. apply nth_removed_notin; [exact (i_nodup s I) | exact Hn].
+    + rewrite upd_other in H0 by exact E. intros Hc. apply in_remove_nth in Hc. exact (i_pool_free s I r0 w0 H0 Hc).
+  - intros r1 r2 w0 H1 H2.
+    destruct (Nat.eq_dec r1 r) as [->|E1]; destruct (Nat.eq_dec r2 r) as [->|E2].
+    + reflexivity.
+    + rewrite upd_same in H1. injection H1 as <-. rewrite upd_other in H2 by exact E2. exfalso; exact (Hfree r2 H2).
+    + rewrite upd_same in H2. injection H2 as <-. rewrite upd_other in H1 by exact E1. exfalso; exact (Hfree r1 H1).
+    + rewrite upd_other in H1, H2 by assumption. exact (i_excl s I r1 r2 w0 H1 H2).
+  - intros w0 Hc. apply in_remove_nth in Hc. exact (i_lt_pool s I w0 Hc).
+  - intros r0 w0 H0. destruct (Nat.eq_dec r0 r) as [->|E].
+    + rewrite upd_same in H0. injection H0 as <-. exact (i_lt_pool s I w Hin).
+    + rewrite upd_other in H0 by exact E. exact (i_lt_held s I r0 w0 H0).
+  - intros r0 w0 H0. destruct (Nat.eq_dec r0 r) as [->|E].
+    + rewrite upd_same in H0. injection H0 as <-. rewrite !upd_same. rewrite Hl, Ho, Hd. repeat split; reflexivity.
+    + rewrite upd_other in H0 by exact E.
+      assert (Ew : w0 <> w) by (intros ->; exact (Hfree r0 H0)).
+      rewrite !(upd_other _ w _ w0 Ew). rewrite (upd_other _ r _ r0 E). exact (i_held s I r0 w0 H0).
+  - intros r0 H0. assert (E : r0 <> r) by (intros ->; congruence).
+    rewrite !(upd_other _ r _ r0 E). exact (i_done s I r0 H0).
+  - intros r0 H0 H1. destruct (Nat.eq_dec r0 r) as [->|E]; [rewrite upd_same in H1; discriminate|].
+    rewrite (upd_other _ r _ r0 E) in H1. rewrite (upd_other _ r _ r0 E). exact (i_idle s I r0 H0 H1).
+Qed.
+
+Lemma pinv_get_new s r :
+  pinv s -> p_done s r = false -> p_held s r = None ->
+  pinv (mkP (p_pool s) (upd (p_held s) r (Some (p_next s))) (p_done s) (upd (p_got s) r true)
+            (upd (p_dst s) (p_next s) r) (upd (p_buf s) (p_next s) []) (upd (p_closed s) (p_next s) false)
+            (p_out s) (p_log s) (S (p_next s))).
+Proof.
+  intros I Hd Hh. set (w := p_next s).
+  assert (Hfree : forall r0, p_held s r0 <> Some w)
+    by (intros r0 H0; pose proof (i_lt_held s I r0 w H0); unfold w in *; lia).
+  assert (Hnin : ~ In w (p_pool s)) by (intros Hc; pose proof (i_lt_pool s I w Hc); unfold w in *; lia).
+  destruct (i_idle s I r Hd Hh) as (Ho & Hl & Hg).
+  constructor; cbn [p_pool p_held p_done p_got p_dst p_buf p_closed p_out p_log p_next].
+  - exact (i_nodup s I).
+  - intros r0 w0 H0. destruct (Nat.eq_dec r0 r) as [->|E].
+    + rewrite upd_same in H0. injection H0 as <-. exact Hnin.
+    + rewrite upd_other in H0 by exact E. exact (i_pool_free s I r0 w0 H0).
+  - intros r1 r2 w0 H1 H2.
+    destruct (Nat.eq_dec r1 r) as [->|E1]; destruct (Nat.eq_dec r2 r) as [->|E2].
+    + reflexivity.
+    + rewrite upd_same in H1. injection H1 as <-. rewrite upd_other in H2 by exact E2. exfalso; exact (Hfree r2 H2).
+    + rewrite upd_same in H2. injection H2 as <-. rewrite upd_other in H1 by exact E1. exfalso; exact (Hfree r1 H1).
+    + rewrite upd_other in H1, H2 by assumption. exact (i_excl s I r1 r2 w0 H1 H2).
+  - intros w0 Hc. pose proof (i_lt_pool s I w0 Hc). lia.
+  - intros r0 w0 H0. destruct (Nat.eq_dec r0 r) as [->|E].
+    + rewrite upd_same in H0. injection H0 as <-. unfold w. lia.
+    + rewrite upd_other in H0 by exact E. pose proof (i_lt_held s I r0 w0 H0). lia.
+  - intros r0 w0 H0. destruct (Nat.eq_dec r0 r) as [->|E].
+    + rewrite upd_same in H0. injection H0 as <-. rewrite !upd_same. rewrite Hl, Ho, Hd. repeat split; reflexivity.
+    + rewrite upd_other in H0 by exact E.
+      assert (Ew : w0 <> w) by (intros ->; exact (Hfree r0 H0)).
+      rewrite !(upd_other _ w _ w0 Ew). rewrite (upd_other _ r _ r0 E). exact (i_held s I r0 w0 H0).
+  - intros r0 H0. assert (E : r0 <> r) by (intros ->; congruence).
+    rewrite !(upd_other _ r _ r0 E). exact (i_done s I r0 H0).
+  - intros r0 H0 H1. destruct (Nat.eq_dec r0 r) as [->|E]; [rewrite upd_same in H1; discriminate|].
+    rewrite (upd_other _ r _ r0 E) in H1. rewrite (upd_other _ r _ r0 E). exact (i_idle s I r0 H0 H1).
+Qed.
+
+Lemma pinv_write s r w b :
+  pinv s -> p_held s r = Some w ->
+  pinv (mkP (p_pool s) (p_held s) (p_done s) (p_got s) (p_dst s) (upd (p_buf s) w (b :: p_buf s w))
+            (p_closed s) (p_out s) (upd (p_log s) r (b :: p_log s r)) (p_next s)).
+Proof.
+  intros I Hh. destruct (i_held s I r w Hh) as (Hdst & Hcl & Hbuf & Ho & Hd & Hg).
+  constructor; cbn [p_pool p_held p_done p_got p_dst p_buf p_closed p_out p_log p_next];
+    try (destruct I; assumption).
+  - intros r0 w0 H0. destruct (i_held s I r0 w0 H0) as (A & B & C & D & E & F).
+    destruct (Nat.eq_dec r0 r) as [->|Er].
+    + assert (w0 = w) by congruence. subst w0. rewrite !upd_same. rewrite Hbuf. auto 6.
+    + assert (Ew : w0 <> w) by (intros ->; apply Er; exact (i_excl s I r0 r w H0 Hh)).
+      rewrite (upd_other _ w _ w0 Ew), (upd_other _ r _ r0 Er). auto 6.
+  - intros r0 H0. assert (E : r0 <> r) by (intros ->; congruence).
+    rewrite (upd_other _ r _ r0 E). exact (i_done s I r0 H0).
+  - intros r0 H0 H1. assert (E : r0 <> r) by (intros ->; congruence).
+    rewrite (upd_other _ r _ r0 E). exact (i_idle s I r0 H0 H1).
+Qed.
+
+Lemma pinv_finish_held s r w :
+  pinv s -> p_held s r = Some w ->
+  pinv (mkP (w :: p_pool s) (upd (p_held s) r None) (upd (p_done s) r true) (p_got s) (p_dst s) (p_buf s)
+            (upd (p_closed s) w true) (upd (p_out s) r (p_out s r ++ [rev (p_buf s w)])) (p_log s) (p_next s)).
+Proof.
+  intros I Hh. destruct (i_held s I r w Hh) as (Hdst & Hcl & Hbuf & Ho & Hd & Hg).
+  assert (Hother : forall r0 w0, r0 <> r -> p_held s r0 = Some w0 -> w0 <> w)
+    by (intros r0 w0 E H0 ->; apply E; exact (i_excl s I r0 r w H0 Hh)).
+  constructor; cbn [p_pool p_held p_done p_got p_dst p_buf p_closed p_out p_log p_next].
+  - constructor; [exact (i_pool_free s I r w Hh) | exact (i_nodup s I)].
+  - intros r0 w0 H0. destruct (Nat.eq_dec r0 r) as [->|E]; [rewrite upd_same in H0; discriminate|].
+    rewrite upd_other in H0 by exact E. intros [Hc | Hc].
+    + exact (Hother r0 w0 E H0 (eq_sym Hc)).
+    + exact (i_pool_free s I r0 w0 H0 Hc).
+  - intros r1 r2 w0 H1 H2.
+    destruct (Nat.eq_dec r1 r) as [->|E1]; [rewrite upd_same in H1; discriminate|].
+    destruct (Nat.eq_dec r2 r) as [->|E2]; [rewrite upd_same in H2; discriminate|].
+    rewrite upd_other in H1, H2 by assumption. exact (i_excl s I r1 r2 w0 H1 H2).
+  - intros w0 [<- | Hc]; [exact (i_lt_held s I r w Hh) | exact (i_lt_pool s I w0 Hc)].
+  - intros r0 w0 H0. destruct (Nat.eq_dec r0 r) as [->|E]; [rewrite upd_same in H0; discriminate|].
+    rewrite upd_other in H0 by exact E. exact (i_lt_held s I r0 w0 H0).
+  - intros r0 w0 H0. destruct (Nat.eq_dec r0 r) as [->|E]; [rewrite upd_same in H0; discriminate|].
+    rewrite upd_other in H0 by exact E. pose proof (Hother r0 w0 E H0) as Ew.
+    rewrite (upd_other _ w _ w0 Ew), !(upd_other _ r _ r0 E). exact (i_held s I r0 w0 H0).
+  - intros r0 H0. destruct (Nat.eq_dec r0 r) as [->|E].
+    + rewrite !upd_same. rewrite Hg, Ho, Hbuf. split; reflexivity.
+    + rewrite !(upd_other _ r _ r0 E) in *. exact (i_done s I r0 H0).
+  - intros r0 H0 H1. destruct (Nat.eq_dec r0 r) as [->|E]; [rewrite upd_same in H0; discriminate|].
+    rewrite !(upd_other _ r _ r0 E) in *. exact (i_idle s I r0 H0 H1).
+Qed.
+
+Lemma pinv_finish_idle s r :
+  pinv s -> p_done s r = false -> p_held s r = None ->
+  pinv (mkP (p_pool s) (upd (p_held s) r None) (upd (p_done s) r true) (p_got s) (p_dst s) (p_buf s)
+            (p_closed s) (p_out s) (p_log s) (p_next s)).
+Proof.
+  intros I Hd Hh. destruct (i_idle s I r Hd Hh) as (Ho & Hl & Hg).
+  constructor; cbn [p_pool p_held p_done p_got p_dst p_buf p_closed p_out p_log p_next];
+    try (destruct I; assumption).
+  - intros r0 w0 H0. destruct (Nat.eq_dec r0 r) as [->|E]; [rewrite upd_same in H0; discriminate|].
+    rewrite upd_other in H0 by exact E. exact (i_pool_free s I r0 w0 H0).
+  - intros r1 r2 w0 H1 H2.
+    destruct (Nat.eq_dec r1 r) as [->|E1]; [rewrite upd_same in H1; discriminate|].
+    destruct (Nat.eq_dec r2 r) as [->|E2]; [rewrite upd_same in H2; discriminate|].
+    rewrite upd_other in H1, H2 by assumption. exact (i_excl s I r1 r2 w0 H1 H2).
+  - intros r0 w0 H0. destruct (Nat.eq_dec r0 r) as [->|E]; [rewrite upd_same in H0; discriminate|].
+    rewrite upd_other in H0 by exact E. exact (i_lt_held s I r0 w0 H0).
+  - intros r0 w0 H0. destruct (Nat.eq_dec r0 r) as [->|E]; [rewrite upd_same in H0; discriminate|].
+    rewrite upd_other in H0 by exact E. rewrite (upd_other _ r _ r0 E). exact (i_held s I r0 w0 H0).
+  - intros r0 H0. destruct (Nat.eq_dec r0 r) as [->|E].
+    + rewrite upd_same. rewrite Hg, Ho. split; reflexivity.
+    + rewrite !(upd_other _ r _ r0 E) in *. exact (i_done s I r0 H0).
+  - intros r0 H0 H1. destruct (Nat.eq_dec r0 r) as [->|E]; [rewrite upd_same in H0; discriminate|].
+    rewrite !(upd_other _ r _ r0 E) in *. exact (i_idle s I r0 H0 H1).
+Qed.
+
+Lemma pinv_drop s k :
+  pinv s ->
+  pinv (mkP (remove_nth k (p_pool s)) (p_held s) (p_done s) (p_got s) (p_dst s) (p_buf s) (p_closed s)
+            (p_out s) (p_log s) (p_next s)).
+Proof.
+  intros I. constructor; cbn [p_pool p_held p_done p_got p_dst p_buf p_closed p_out p_log p_next];
+    try (destruct I; assumption).
+  - apply nodup_remove_nth. exact (i_nodup s I).
+  - intros r w H Hc. apply in_remove_nth in Hc. exact (i_pool_free s I r w H Hc).
+  - intros w Hc. apply in_remove_nth in Hc. exact (i_lt_pool s I w Hc).
+Qed.
+
+Lemma pinv_step s e : pinv s -> pinv (pool_step nput_code s e).
+Proof.
+  intros I. destruct e as [r k | r b | r err | k]; unfold pool_step.
+  - destruct (p_done s r) eqn:Hd; [exact I|]. destruct (p_held s r) as [w0|] eqn:Hh; [exact I|].
+    destruct (nth_error (p_pool s) k) as [w|] eqn:Hn.
+    + apply pinv_get_pool; assumption.
+    + apply pinv_get_new; assumption.
+  - destruct (p_held s r) as [w|] eqn:Hh; [|exact I].
+    destruct (i_held s I r w Hh) as (_ & Hcl & _). rewrite Hcl. apply pinv_write; assumption.
+  - destruct (p_done s r) eqn:Hd; [exact I|]. destruct (p_held s r) as [w|] eqn:Hh.
+    + destruct (i_held s I r w Hh) as (Hdst & Hcl & _).
+      unfold nput_code. cbn [put_n]. unfold put_w, close_w. rewrite Hcl.
+      cbn [p_pool p_held p_done p_got p_dst p_buf p_closed p_out p_log p_next]. rewrite Hdst.
+      apply pinv_finish_held; assumption.
+    + apply pinv_finish_idle; assumption.
+  - apply pinv_drop. exact I.
+Qed.
+
+Lemma pinv_run_from t : forall s, pinv s -> pinv (fold_left (pool_step nput_code) t s).
+Proof. induction t as [|e t IH]; intros s I; cbn [fold_left]; [exact I | apply IH, pinv_step, I]. Qed.
+
+Lemma pinv_run t : pinv (prun nput_code t).
+Proof. apply pinv_run_from, pinv_p0. Qed.
+
+(* no writer is owned by two requests at once, nor owned and pooled, nor pooled twice — in every
+   state of every interleaving *)
+Lemma pool_writers_not_shared t :
+  let s := prun nput_code t in
+  (forall r1 r2 w, p_held s r1 = Some w -> p_held s r2 = Some w -> r1 = r2) /\
+  (forall r w, p_held s r = Some w -> ~ In w (p_pool s)) /\
+  NoDup (p_pool s).
+Proof. cbv zeta. pose proof (pinv_run t) as I. split; [|split]; destruct I; assumption. Qed.
+
+(* what a request's response received from the gzip layer: nothing while it runs, and once it has
+   finished exactly one stream holding exactly its own writes, in order *)
+Lemma pool_response_own_writes t r :
+  let s := prun nput_code t in
+  (p_done s r = false -> p_out s r = []) /\
+  (p_done s r = true -> p_out s r = if p_got s r then [rev (p_log s r)] else []).
+Proof.
+  cbv zeta. pose proof (pinv_run t) as I. split; intros H.
+  - destruct (p_held (prun nput_code t) r) as [w|] eqn:Hh.
+    + destruct (i_held _ I r w Hh) as (_ & _ & _ & Ho & _). exact Ho.
+    + destruct (i_idle _ I r H Hh) as (Ho & _). exact Ho.
+  - destruct (i_done _ I r H) as (_ & Ho). exact Ho.
+Qed.
+
+(* the writer a request holds is bound to that request's response, open, and holds its writes only *)
+Lemma pool_held_writer_own t r w :
+  let s := prun nput_code t in
+  p_held s r = Some w -> p_dst s w = r /\ p_closed s w = false /\ p_buf s w = p_log s r.
+Proof.
+  cbv zeta. intros H. destruct (i_held _ (pinv_run t) r w H) as (A & B & C & _). auto.
+Qed.
+
+(* ====== a second put on the error path: the linearity invariant breaks ====== *)
+Definition double_put_trace : list pev :=
+  [PGet 0 0; PWrite 0 [1]; PFinish 0 true;              (* a handler that wrote, then returned >= 400 *)
+   PGet 1 0; PWrite 1 [2]; PGet 2 0; PWrite 2 [3];      (* two later requests overlap *)
+   PWrite 1 [4]; PFinish 1 false; PFinish 2 false].
+
+Lemma double_put_shares :
+  (let mid := prun nput_twice_on_error (firstn 7 double_put_trace) in
+   p_held mid 1%nat = Some 0%nat /\ p_held mid 2%nat = Some 0%nat) /\
+  (let s := prun nput_twice_on_error double_put_trace in
+   p_out s 1%nat = [] /\ p_out s 2%nat = [[[3]; [4]]]) /\
+  (let s := prun nput_code double_put_trace in
+   p_out s 1%nat = [[[2]; [4]]] /\ p_out s 2%nat = [[[3]]]).
+Proof. vm_compute. repeat split; reflexivity. Qed.
+
+(* ====== precompressed siblings are served only in a coding the request offers ====== *)
+Lemma ltrim_keeps c s : is_ows c = false -> In c s -> In c (ltrim s).
+Proof.
+  intros Hc. induction s as [|a s IH]; simpl; [auto|].
+  intros [<- | Hin].
+  - rewrite Hc. left. reflexivity.
+  - destruct (is_ows a); [exact (IH Hin) | right; exact Hin].
+Qed.
+
+Lemma trim_keeps c s : is_ows c = false -> In c s -> In c (trim s).
+Proof.
+  intros Hc Hin. unfold trim. apply -> in_rev. apply ltrim_keeps; [exact Hc|].
+  apply -> in_rev. apply ltrim_keeps; [exact Hc | exact Hin].
+Qed.
+
+Lemma split_on_nosep sep s : forall cur, ~ In sep s -> split_on sep s cur = [rev cur ++ s].
+Proof.
+  induction s as [|c s IH]; intros cur Hn; simpl.
+  - rewrite app_nil_r. reflexivity.
+  - destruct (N.eqb_spec c sep) as [->|Hne]; [exfalso; apply Hn; left; reflexivity|].
+    rewrite IH by (intros H; apply Hn; right; exact H). simpl. rewrite <- app_assoc. reflexivity.
+Qed.
+
+(* an element of the comma list that is the coding name itself (blanks around it apart, no
+   parameter) makes the RFC reading see the coding offered *)
+Lemma offers_of_plain_element names ae e name :
+  In e (split 44 ae) -> trim e = name -> ~ In 59 name -> to_lower name = name ->
+  existsb (beq name) names = true -> offers names ae = true.
+Proof.
+  intros Hin Ht Hsemi Hlow Hnames.
+  assert (Hno : ~ In 59 e) by (intros H; apply Hsemi; rewrite <- Ht; apply trim_keeps; [reflexivity | exact H]).
+  assert (Hsp : split 59 e = [e]) by (unfold split; rewrite split_on_nosep by exact Hno; reflexivity).
+  unfold offers.
+  set (entry := fun e : bytes => let parts := split 59 e in (to_lower (trim (hd [] parts)), qzero (tl parts))).
+  assert (Hent : In (entry e) (ae_entries ae)) by (unfold ae_entries; apply in_map; exact Hin).
+  assert (He : entry e = (name, false)).
+  { unfold entry. cbv zeta. rewrite Hsp. cbn [hd tl]. rewrite Ht, Hlow. reflexivity. }
+  rewrite He in Hent.
+  assert (Hf : In (name, false) (filter (fun x => existsb (beq (fst x)) names) (ae_entries ae)))
+    by (apply filter_In; split; [exact Hent | exact Hnames]).
+  destruct (filter _ (ae_entries ae)) as [|x ex] eqn:Ef; [destruct Hf|].
+  apply existsb_exists. exists (name, false). split; [exact Hf | reflexivity].
+Qed.
+
+Lemma offers_coding_of_plain_element ae e name :
+  In e (split 44 ae) -> trim e = name -> ~ In 59 name -> to_lower name = name ->
+  offers_coding ae name = true.
+Proof.
+  intros Hin Ht Hsemi Hlow. unfold offers_coding, offers_gzip.
+  destruct (beq name GZIP || beq name (bs "x-gzip")) eqn:E.
+  - apply (offers_of_plain_element _ ae e name); auto.
+    cbn [existsb]. rewrite orb_false_r. exact E.
+  - apply (offers_of_plain_element _ ae e name); auto.
+    cbn [existsb]. rewrite Hlow, beq_refl. reflexivity.
+Qed.
+
+(* the white space around the elements of the header is SP / HTAB only (what RFC 7230 allows
+   there; strings.TrimSpace also strips Unicode white space and the other ASCII controls) *)
+Definition plain_ows (ae : bytes) : Prop := forall e, In e (split 44 ae) -> trim_space e = trim e.
+
+Lemma sibling_only_if_offered prio ae avail name ext :
+  select_sibling prio ae avail = Some (name, ext) ->
+  plain_ows ae -> ~ In 59 name -> to_lower name = name ->
+  avail ext = true /\ offers_coding ae name = true.
+Proof.
+  intros Hsel Hws Hsemi Hlow.
+  destruct (select_sibling_sound _ _ _ _ _ Hsel) as (Ha & Hv & _).
+  split; [exact Hv|].
+  apply accepted_listed in Ha as (e & Hin & He).
+  apply (offers_coding_of_plain_element ae e name); auto.
+  rewrite <- (Hws e Hin). exact He.
+Qed.
+
+(* the names of the table in the sources are such tokens *)
+Lemma prio_names_tokens :
+  forallb (fun ne => negb (existsb (N.eqb 59) (fst ne)) && beq (to_lower (fst ne)) (fst ne)) gen_c18_static_priority = true.
+Proof. vm_compute. reflexivity. Qed.
+
+Lemma existsb_eqb_in c l : existsb (N.eqb c) l = false -> ~ In c l.
+Proof.
+  intros H Hin. assert (existsb (N.eqb c) l = true) by (apply existsb_exists; exists c; split; [exact Hin | apply N.eqb_refl]).
+  congruence.
+Qed.
+
+Lemma sibling_only_if_offered_table ae avail name ext :
+  select_sibling gen_c18_static_priority ae avail = Some (name, ext) -> plain_ows ae ->
+  avail ext = true /\ offers_coding ae name = true.
+Proof.
+  intros Hsel Hws.
+  destruct (select_sibling_sound _ _ _ _ _ Hsel) as (_ & _ & l1 & l2 & E & _).
+  pose proof prio_names_tokens as Ht. rewrite forallb_forall in Ht.
+  assert (Hin : In (name, ext) gen_c18_static_priority) by (rewrite E; apply in_or_app; right; left; reflexivity).
+  specialize (Ht _ Hin). cbn [fst] in Ht. apply andb_true_iff in Ht as [H1 H2].
+  apply negb_true_iff in H1. apply existsb_eqb_in in H1. apply beq_eq in H2.
+  exact (sibling_only_if_offered _ _ _ _ _ Hsel Hws H1 H2).
+Qed.
+
+(* without the condition on the white space the RFC reading is not implied: U+00A0 after the name *)
+Lemma sibling_only_if_offered_refuted :
+  exists ae name ext,
+    select_sibling gen_c18_static_priority ae (fun e => beq e (bs ".gz")) = Some (name, ext) /\
+    offers_coding ae name = false.
+Proof. exists (bs "gzip" ++ [194; 160]), (bs "gzip"), (bs ".gz"). vm_compute. split; reflexivity. Qed.
+
+(* q-value spellings: a coding that carries any parameter is not taken for offered by the file
+   server (q=0 refuses; q=1 is not understood either: the identity file is served) *)
+Lemma sibling_param_spellings_refused :
+  forallb (fun c =>
+    forallb (fun suffix =>
+      match select_sibling gen_c18_static_priority (fst c ++ suffix) (fun _ => true) with None => true | Some _ => false end)
+      [bs ";q=0"; bs "; q=0"; bs ";q=0.0"; bs " ;q=0.000"; bs ";Q=0"; bs ";q=0, identity"; bs ";q=1"; bs ";q=0.5"])
+    gen_c18_static_priority = true.
+Proof. vm_compute. reflexivity. Qed.
+
+(* printable ASCII and HTAB: on such strings strings.TrimSpace and the RFC's OWS trimming agree *)
+Definition vis (c : N) : bool := (c =? 9) || ((32 <=? c) && (c <? 127)).
+
+Lemma vis_space c : vis c = true -> is_space c = is_ows c.
+Proof.
+  unfold vis, is_space, is_ows. intros H.
+  destruct (N.eqb_spec c 9) as [E9|H9]; [subst c; reflexivity|]. cbn [orb] in H.
+  apply andb_true_iff in H as [H1 H2]. apply N.leb_le in H1. apply N.ltb_lt in H2.
+  destruct (N.eqb_spec c 32) as [E32|H32]; [subst c; reflexivity|].
+  cbn [orb]. apply andb_false_iff. right. apply N.leb_gt. lia.
+Qed.
+
+Lemma vis_lt c : vis c = true -> c < 128.
+Proof.
+  unfold vis. intros H. destruct (N.eqb_spec c 9) as [E9|H9]; [lia|]. cbn [orb] in H.
+  apply andb_true_iff in H as [_ H2]. apply N.ltb_lt in H2. lia.
+Qed.
+
+Lemma sp2_low c1 c2 : c1 < 128 -> sp2 c1 c2 = false.
+Proof. intros H. unfold sp2. destruct (N.eqb_spec c1 194); [lia | reflexivity]. Qed.
+Lemma sp3_low c1 c2 c3 : c1 < 128 -> sp3 c1 c2 c3 = false.
+Proof.
+  intros H. unfold sp3.
+  destruct (N.eqb_spec c1 225); [lia|]. destruct (N.eqb_spec c1 226); [lia|]. destruct (N.eqb_spec c1 227); [lia|].
+  reflexivity.
+Qed.
+
+Lemma ltrim_sp_vis s : forallb vis s = true -> ltrim_sp s = ltrim s.
+Proof.
+  induction s as [|c r IH]; [reflexivity|]. cbn [forallb]. intros H. apply andb_true_iff in H as [Hc Hr].
+  cbn [ltrim_sp ltrim]. rewrite (vis_space c Hc). destruct (is_ows c); [exact (IH Hr)|].
+  destruct r as [|c2 r2]; [reflexivity|]. rewrite (sp2_low c c2 (vis_lt c Hc)).
+  destruct r2 as [|c3 r3]; [reflexivity|]. rewrite (sp3_low c c2 c3 (vis_lt c Hc)). reflexivity.
+Qed.
+
+Lemma ltrim_sp_rev_vis s : forallb vis s = true -> ltrim_sp_rev s = ltrim s.
+Proof.
+  induction s as [|c r IH]; [reflexivity|]. cbn [forallb]. intros H. apply andb_true_iff in H as [Hc Hr].
+  cbn [ltrim_sp_rev ltrim]. rewrite (vis_space c Hc). destruct (is_ows c); [exact (IH Hr)|].
+  destruct r as [|c2 r2]; [reflexivity|]. cbn [forallb] in Hr. apply andb_true_iff in Hr as [Hc2 Hr2].
+  rewrite (sp2_low c2 c (vis_lt c2 Hc2)).
+  destruct r2 as [|c3 r3]; [reflexivity|]. cbn [forallb] in Hr2. apply andb_true_iff in Hr2 as [Hc3 _].
+  rewrite (sp3_low c3 c2 c (vis_lt c3 Hc3)). reflexivity.
+Qed.
+
+Lemma ltrim_forallb (P : N -> bool) s : forallb P s = true -> forallb P (ltrim s) = true.
+Proof.
+  induction s as [|c r IH]; [auto|]. cbn [forallb ltrim]. intros H.
+  destruct (is_ows c); [apply andb_true_iff in H as [_ H]; exact (IH H) | exact H].
+Qed.
+
+Lemma forallb_rev (P : N -> bool) s : forallb P s = true -> forallb P (rev s) = true.
+Proof.
+  intros H. apply forallb_forall. intros x Hx. apply in_rev in Hx. rewrite forallb_forall in H. exact (H x Hx).
+Qed.
+
+Lemma trim_space_vis s : forallb vis s = true -> trim_space s = trim s.
+Proof.
+  intros H. unfold trim_space, trim. rewrite (ltrim_sp_vis s H).
+  rewrite ltrim_sp_rev_vis; [reflexivity|]. apply forallb_rev. apply ltrim_forallb. exact H.
+Qed.
+
+Lemma split_on_forallb (P : N -> bool) sep s : forall cur e,
+  forallb P s = true -> forallb P cur = true -> In e (split_on sep s cur) -> forallb P e = true.
+Proof.
+  induction s as [|c r IH]; intros cur e Hs Hc Hin; cbn [split_on] in Hin.
+  - destruct Hin as [<- | []]. apply forallb_rev. exact Hc.
+  - cbn [forallb] in Hs. apply andb_true_iff in Hs as [Hc0 Hr].
+    destruct (c =? sep).
+    + destruct Hin as [<- | Hin]; [apply forallb_rev; exact Hc | exact (IH [] e Hr eq_refl Hin)].
+    + apply (IH (c :: cur) e Hr); [cbn [forallb]; rewrite Hc0, Hc; reflexivity | exact Hin].
+Qed.
+
+Lemma vis_plain_ows ae : forallb vis ae = true -> plain_ows ae.
+Proof.
+  intros H e Hin. apply trim_space_vis. unfold split in Hin.
+  exact (split_on_forallb vis 44 ae [] e H eq_refl Hin).
+Qed.
